@@ -637,7 +637,11 @@ func runInner(c Sx) (res Result, extra string) {
 				fails = append(fails, "types.Sender with another signer returned the cached sender of the first")
 			}
 		} else if ss.Kind == 2 && ss.Chain.Sign() == 0 && sp.Ty == 0 {
+			// the refutation witness of C03_sender_sign_eip155_chain0_refuted, replayed on the real code
 			res.Tags = append(res.Tags, "eip155-chain0")
+			if got.class != 0 || got.addr != want {
+				res.Tags = append(res.Tags, "eip155-chain0-sender-differs-from-key")
+			}
 		}
 		checkSpec("signed tx under the recovering signer", ss2, sg2, ssp, stx, got2, &fails)
 		// (2) the signature hash does not depend on V, R, S
@@ -735,6 +739,9 @@ func runInner(c Sx) (res Result, extra string) {
 		res.Tags = append(res.Tags, "raw", fmt.Sprintf("ty%d", sp.Ty), fmt.Sprintf("rec-signer%d.%d", ss.Kind, ss.Fork), fmt.Sprintf("senderclass%d", got.class))
 		if sp.V.Sign() < 0 {
 			res.Tags = append(res.Tags, "negative-v")
+			if got.class == 0 { // C03_admissible_v_negative_refuted on the real code
+				res.Tags = append(res.Tags, "negative-v-accepted")
+			}
 		}
 		res.NonTrivial = true
 		checkSpec("raw tx", ss, sg, sp, tx, got, &fails)
@@ -742,7 +749,7 @@ func runInner(c Sx) (res Result, extra string) {
 			fails = append(fails, "types.Sender disagrees with signer.Sender")
 		}
 		return
-	case 2, 9: // crypto level: ValidateSignatureValues + Ecrecover / SigToPub / VerifySignature
+	case 2, 8, 9: // crypto level: ValidateSignatureValues + Ecrecover / SigToPub / VerifySignature (8: vs Crypto/Secp.v)
 		if len(l) != 5 {
 			shape("kind 2 shape")
 		}
@@ -753,8 +760,9 @@ func runInner(c Sx) (res Result, extra string) {
 		vb := byte(v.Uint64())
 		vf, vh := crypto.ValidateSignatureValues(vb, r, s, false), crypto.ValidateSignatureValues(vb, r, s, true)
 		res.Obs = L(Bool(vf), Bool(vh))
-		if AsInt(l[0]) == 9 {
-			res.Obs = L()
+		kind := AsInt(l[0])
+		if kind == 9 || kind == 8 {
+			res.Obs = L() // kind 8: replaced below when Ecrecover succeeds
 		}
 		res.Tags = append(res.Tags, "crypto", fmt.Sprintf("validF%v", vf), fmt.Sprintf("validH%v", vh), fmt.Sprintf("v%d", min(int(vb), 29)))
 		res.NonTrivial = true
@@ -771,6 +779,12 @@ func runInner(c Sx) (res Result, extra string) {
 		if (err == nil) != (err2 == nil) || (err == nil && !bytes.Equal(crypto.FromECDSAPub(pk), pub)) {
 			fails = append(fails, "Ecrecover and SigToPub disagree")
 		}
+		if isCgo { // third oracle: the textbook curve of refcurve.go (run once, in the parent build)
+			rp, rok := refRecover(hash, r, s, vb)
+			if rok != (err == nil) || (rok && !bytes.Equal(rp, pub)) {
+				fails = append(fails, fmt.Sprintf("Ecrecover (err=%v, %x) differs from the reference curve (ok=%v, %x)", err, pub, rok, rp))
+			}
+		}
 		if err != nil {
 			extra = "recover-fail"
 			res.Tags = append(res.Tags, "recover-fail")
@@ -783,6 +797,10 @@ func runInner(c Sx) (res Result, extra string) {
 		if len(pub) != 65 || pub[0] != 4 {
 			fails = append(fails, "Ecrecover returned a malformed key")
 			return
+		}
+		if kind == 8 {
+			res.Obs = L(L(Big(new(big.Int).SetBytes(pub[1:33])), Big(new(big.Int).SetBytes(pub[33:65]))))
+			res.Tags = append(res.Tags, "coq-curve")
 		}
 		ver := crypto.VerifySignature(pub, hash, sig[:64])
 		verC := crypto.VerifySignature(crypto.CompressPubkey(pk), hash, sig[:64])
@@ -824,6 +842,14 @@ func runInner(c Sx) (res Result, extra string) {
 		}
 		if !crypto.VerifySignature(crypto.FromECDSAPub(&key.PublicKey), hash, sig[:64]) {
 			fails = append(fails, "VerifySignature(pub(k), h, Sign(h,k)) = false")
+		}
+		if isCgo {
+			if !bytes.Equal(refPub(key.D), crypto.FromECDSAPub(&key.PublicKey)) {
+				fails = append(fails, "public key of the private key differs from the reference curve")
+			}
+			if !refVerify(crypto.FromECDSAPub(&key.PublicKey), hash, r, s) {
+				fails = append(fails, "reference curve rejects crypto.Sign's signature")
+			}
 		}
 		h2 := append([]byte{}, hash...)
 		h2[0] ^= 1
@@ -1145,7 +1171,7 @@ func run(c Sx) Result {
 	res.Tags = append(res.Tags, "both-backends")
 	if parts[0] != obsText(res) || parts[1] != extra {
 		k := AsInt(AsList(c)[0])
-		if k == 9 || k == 2 {
+		if k == 9 || k == 2 || k == 8 {
 			add(fmt.Sprintf("backends disagree on recovery id / crypto result: cgo {%s %s} nocgo {%s %s}", obsText(res), extra, parts[0], parts[1]))
 		} else {
 			add(fmt.Sprintf("cgo and nocgo backends disagree: cgo {%s %s} nocgo {%s %s}", obsText(res), extra, parts[0], parts[1]))
